@@ -1,7 +1,7 @@
 (* C09: the printed zone is read back as the zone that was printed. *)
 From DV Require Import Base.Prelude Model.NameM Model.ZoneTextM Proofs.ZoneTextBase Proofs.ZoneTextInv
   Proofs.ZoneTextRespell Proofs.ZoneTextRead Proofs.ZoneTextLex Proofs.ZoneTextLines Proofs.ZoneTextAcc
-  Proofs.ZoneTextRecord.
+  Proofs.ZoneTextRecord Proofs.ZoneTextSweep.
 Open Scope Z_scope.
 
 Lemma rds_eta r : mkrds (rtype r) (rcovers r) (rttl r) (rdatas r) = r.
@@ -20,7 +20,8 @@ Section RT.
   Let rel := c_rel c.
 
   Hypothesis Hloss : lossless st.
-  Hypothesis Hclass : class_ok c.
+  Hypothesis Hclass16 : 0 <= c_class c <= 65535.
+  Let Hclass : class_ok c := class_ok_all c Hclass16.
 
   (* the zone built so far: the finished names, then the current name if it has an rdataset *)
   Definition pzone (zdone : zone) (n : name) (ndone : node) : zone :=
@@ -49,7 +50,7 @@ Section RT.
     end.
 
   Definition rds_wf (n : name) (r : rdataset) : Prop :=
-    rdatas r <> [] /\ 0 <= rttl r <= MAX_TTL /\ type_ok (rtype r) /\ soa_ok zo rel n (rtype r) /\
+    rdatas r <> [] /\ 0 <= rttl r <= MAX_TTL /\ 0 <= rtype r <= 65535 /\ soa_ok zo rel n (rtype r) /\
     (is_singleton (rtype r) = true -> exists rd, rdatas r = [rd]) /\
     rdatas_wf (rtype r) (rcovers r) [] (rdatas r).
 
@@ -158,7 +159,8 @@ Section RT.
         lines_read c s lines s' /\ st_inv st zo s' /\ lastname s' = Some nabs /\
         zn s' = zdone ++ [(n, ndone ++ [r])].
     Proof.
-      intros Hinv Hfd Hzn Hrf Hcp (Hne & Httl & Hty & Hsoa & Hsing & Hwf).
+      intros Hinv Hfd Hzn Hrf Hcp (Hne & Httl & Hty16 & Hsoa & Hsing & Hwf).
+      pose proof (type_ok_all _ Hty16) as Hty.
       destruct (rdatas r) as [|rd rds] eqn:Erd; [congruence|].
       cbn [rdatas_wf] in Hwf. destruct Hwf as (Hcov & _ & (toks & Hrd) & Hwf).
       remember (if st_dedup st && fd then None else Some v) as ownt eqn:Eown.
